@@ -70,7 +70,7 @@ EXPECTED_THEOREMS = [
 ] + ac.ASM_GEN_THEOREMS + ['Py65.Props.C07g.' + t for t in (
     'asm_core', 'asm_zp_order', 'asm_abs_form', 'asm_branch', 'asm_backend_sound', 'asm_text', 'asm_spelling_hex',
     'asm_text_imm', 'asm_text_char', 'asm_text_acc', 'asm_text_none', 'asm_ws_case', 'asm_total',
-    'asm_sound_partial')]
+    'asm_sound_partial', 'asm_sound', 'asm_sound_documented')]
 pre_build = ac.pre_build_asm          # tie 1: regenerate lean/Py65/Gen/AsmGen.lean from the current source
 RULE = ('devices x (mnemonic, shape) cross product enumerated; values, addresses, spellings and blank patterns '
         'from boundary classes then random.  distinct = distinct (device, pc, radix, labels, text) inputs; '
